@@ -48,6 +48,10 @@ CLAIMED["C12"] = dict(cat="exploration",
    text="Seeded simulation, one command kind per run on repositories holding 2-4 snapshots of an evolving source: copy into a destination with other key/version/compression/pack sizes/chunker that is empty or already holds part of the snapshots (copied snapshots read back equal to their source models, destination check clean); merge under last_modified_node or its reverse against a reference merge on the models; rewrite with exclude sets from a plain grammar against the model minus matches (forget on/off); repair_snapshots on undamaged repositories (no write) and after losing a data or tree pack (every file kept under its own name has its original content). Part of the commands run under seeded gate schedules.",
    ref="5 C12", note="Plain ASCII names in this scenario; merge orderings that tie on different entries are skipped; repair follows the documented order (repair index first).",
    tech="deterministic simulation: reference-model algebra (merge / exclude / repair) vs read-back on generated repositories")
+CLAIMED["C15"] = dict(cat="exploration",
+   text="Seeded programs of 5-15 public operations on an append-only repository (backup, delete_snapshots, prune with options from the full grid, repair_index, repair_snapshots +/- delete, rewrite +/- forget with and without tree rewriting, config changes, add/delete key, copy into, merge, save_snapshots), each through a fresh handle and partly under seeded gate schedules; the op log of every operation must show no remove and no overwrite of a snapshot, index or pack file, destructive operations must return Err with an empty write/remove log, the others must keep working. Dry-run batch: backup, repair_index, repair_snapshots, rewrite with their dry-run flag and prune_plan on states where the wet twin (run on a fork) does write: zero writes and removes.",
+   ref="5 C15", note="An overwrite with byte-identical content (the same pack produced twice) is not a replacement. delete_key is allowed: key files are not in the property's list.",
+   tech="deterministic simulation: random programs of public operations with an op-log oracle on the storage seam")
 NOT_YET = {}
 NA = {
  "C09": "pure function of its arguments (snapshot list, keep options, explicit 'now'): no schedule, clock read, I/O, fault or history for a simulator to own; see DESIGN.md section 6",
